@@ -2,7 +2,8 @@
 
 Spec: specs/ModelGeom.tla (parts "C07", "TP", "SEQ", "SEQ2"), specs/ModelGeomEdit.tla (part "SEQE": in-place edits of the matrix,
 replayed by cuqiverif/c07_edit.py) and specs/ModelGeomFun.tla (parts "FUN": user functions returning views of their input, "LAY": data
-layout of matrix / vectors; replayed by cuqiverif/c07_fun.py).  TLC checks Adjoint / Columns / Transpose on the intended design for
+layout of matrix / vectors; replayed by cuqiverif/c07_fun.py), specs/ModelGeomConstruct.tla (part "CON", cuqiverif/c07_construct.py) and specs/ModelGeomVec.tla
+(parts "ARR": x / y as CUQIarrays carrying another geometry of the model's class, "VEC": function pairs defined for vectors only; cuqiverif/c07_vec.py).  TLC checks Adjoint / Columns / Transpose on the intended design for
 every (model kind, domain geometry, range geometry) of the bounded instance, the named deviations must violate them, and
 the exact expected numbers are replayed into real cuqi.model.LinearModel objects and the shipped linear test problems.
 """
@@ -49,7 +50,15 @@ META = {
              "constructor; a refusal of a well-formed one is the violation construct/<key>/construction_refused, the constructed model must have the "
              "parameter dimensions of its geometries and (where no `lin` case replays it in full) forward on the basis = H+ F G and get_matrix() = those "
              "columns.  Every constructor call of the other parts (lin, SEQ, SEQ2, SEQE, FUN, LAY, Abel1D) reports a refusal as a violation "
-             "(<part>/construct/.../construction_refused), never as a machinery failure."),
+             "(<part>/construct/.../construction_refused), never as a machinery failure.  "
+             "CONTAINER of x / y (part ARR, ModelGeomVec.tla, EXTENDS ModelGeom): x and y arrive as CUQIarrays of parameters that carry a geometry of the SAME "
+             "class and par_shape as the model's but ANOTHER map (Image2D C <-> F, StepExpansion on another grid with the same n_steps / another projection, "
+             "MappedGeometry with another map, an expansion with another decay - user class and real KLExpansion); the documented conversion uses the MODEL's "
+             "geometry: invariants ArrForward (all basis vectors = columns of the matrix), ArrAdjoint (<A e_i, e_j> = <e_i, A* e_j> with both carried), "
+             "ArrContainer; deviation SameClassCarrierTrusted must violate ArrAdjoint and ArrForward.  Replay before and after get_matrix().  "
+             "VECTOR-ONLY function pairs (part VEC): forward / adjoint written with numpy calls without axis (np.roll(x,1), np.flip(x), np.cumsum(x), "
+             "np.roll(x,-2)[:n-2] - on a matrix numpy flattens): get_matrix() / T.get_matrix() = H+ V G column by column (VecColumns), the supplied adjoint is the "
+             "transpose (VecAdjoint); deviation MatrixFromForwardOfIdentity (one call forward(identity)) must violate VecColumns."),
     "note": ("Bounded sizes (function dimensions 4 and 6, images 2x2/2x3, test problems dim 4-8). KLExpansion is realised numerically "
              "(maps read off the original geometry object). Refusals (fun2par not implemented) are observations. Legacy "
              "Deconvolution1D has no documented operator: only the identities are checked. Complex-valued matrices are out of scope (the library "
